@@ -425,7 +425,8 @@ func c12CallbackHoldsLock(rounds int) []int64 {
 // mode 2, scenario 100: the map is filled with nk thousand keys and then emptied to a tenth by Delete calls of 500 keys
 // (whatever the implementation does when a large map has shrunk - rebuild, compaction - happens here), while four
 // writers work on keys of their own that nobody else touches: Set then Get must read the value just written, Delete
-// then Has must be false, SetNx on the absent key must succeed, Len never exceeds what was ever stored.  [0] = no anomaly.
+// then Has must be false, SetNx on the absent key must succeed, Len never exceeds what was ever stored; at the end one
+// Delete call sweeps all the (by now absent) keys again, some twice: the tenth that is left must stay.  [0] = no anomaly.
 func c12HighWater(nk, rounds int) []int64 {
 	if nk < 1 || nk > 400 || rounds < 1 || rounds > 20 {
 		return []int64{BADCASE}
@@ -484,6 +485,17 @@ func c12HighWater(nk, rounds int) []int64 {
 			}
 		}
 		if int64(s.Len()) != N/10+own {
+			bad.Add(1)
+		}
+		// a sweep: ONE Delete call with far more keys than the map still holds, all of them absent by now or given twice
+		// (expired ids swept in bulk): a Delete removes the keys it is given and nothing else
+		sweep := make([]int64, 0, N)
+		for k := int64(0); k < N-N/10; k++ {
+			sweep = append(sweep, k)
+		}
+		sweep = append(sweep, sweep[:100]...)
+		s.Delete(sweep...)
+		if int64(s.Len()) != N/10+own || !s.Has(N-1) {
 			bad.Add(1)
 		}
 	}
